@@ -27,8 +27,9 @@ def run(prog, chk):
         "mark2base skips numbered anchors and anchors without mark class and excludes mark glyphs; mkmk only for mark glyphs; mark2liga only numbered anchors (R06.7)",
         "parseAnchorName: mark-ness is 'starts with the mark prefix', the key has the prefix stripped, numbered mark anchors raise (R06.8)",
         "no anchor coordinate is dropped or defaulted by a truthiness test: 0 is a legitimate coordinate (R06.9)",
+        "every glyph is a candidate base of some mark feature: the abvm / not-abvm sets cover the glyph set on every path, mark/mkmk use the second and abvm/blwm the first (R06.10)",
     ]
-    chk.not_decided += ["the offsets a shaper computes", "lookup grouping / graph colouring result", "abvm / blwm routing by script", "contextual anchors' generated rules"]
+    chk.not_decided += ["the offsets a shaper computes", "lookup grouping / graph colouring result", "which script a glyph is routed to (abvm / blwm classification data)", "contextual anchors' generated rules"]
     r061(prog, chk)
     r062(prog, chk)
     r063(prog, chk)
@@ -37,6 +38,7 @@ def run(prog, chk):
     r066(prog, chk)
     r067(prog, chk)
     r068(prog, chk)
+    r0610(prog, chk)
     from .rounding import check_no_truthiness_on_coordinates
     n = check_no_truthiness_on_coordinates(prog, chk, "R06.9", [MARK, "ufo2ft.featureWriters.baseFeatureWriter"])
     need(n >= 40, "truthiness scan found too few tests")
@@ -435,7 +437,61 @@ def r068(prog, chk):
     chk.minimum("R06.8", 4)
 
 
+# ----------------------------------------------------------------------------- R06.10
+def r0610(prog, chk):
+    """Every glyph is a candidate base for some mark feature: the two sets returned by
+    _getAbvmGlyphs cover the glyph set (second = ... | (glyph set - first)), and
+    mark/mkmk are built for the second, abvm/blwm for the first."""
+    ix = prog.ix
+    mw = ix.get_class(f"{MARK}.MarkFeatureWriter")
+    g = mw.methods["_getAbvmGlyphs"]
+    gs = [s for s in A.stmts_of(g.node) if isinstance(s, ast.Assign) and isinstance(s.targets[0], ast.Name) and "getOrderedGlyphSet" in T(s.value)]
+    need(len(gs) == 1, f"cannot interpret {g.short}: glyph set")
+    gsn = gs[0].targets[0].id
+    cfg = prog.cfg(g)
+    rets = [r for r in A.returns_of(g.node) if isinstance(r.value, ast.Tuple) and len(r.value.elts) == 2]
+    need(len(rets) >= 2, f"cannot interpret {g.short}: returns")
+    for r in rets:
+        a, b = r.value.elts
+        ok = False
+        why = ""
+        if isinstance(b, ast.Name) and b.id == gsn:
+            ok, why = True, "second set is the whole glyph set"
+        elif isinstance(b, ast.Name) and isinstance(a, ast.Name):
+            # the last definition of b reaching the return is  b |= <glyph set> - a
+            ds = cfg.reaching_defs(b.id, r)
+            last = [d for d in ds if d.kind == "augassign"]
+            if len(last) == 1 and isinstance(last[0].binder.op, ast.BitOr):
+                v = last[0].binder.value
+                ok = isinstance(v, ast.BinOp) and isinstance(v.op, ast.Sub) and T(v.left) == gsn and T(v.right) == a.id
+                # nothing removed from b / added to a afterwards
+                ok = ok and cfg.dominates(last[0].node, cfg.node_of(r))
+                why = T(last[0].binder)
+        chk.ob("R06.10", f"{g.short}|{A.keytext(g.node, r)}|the two sets cover the glyph set", ok, where(g, r), detail=why,
+               message=f"{g.short}: a glyph can be in neither the abvm nor the not-abvm set (`{T(r, 60)}`): it gets no attachment in mark, mkmk, abvm or blwm although its anchors match")
+    mf = mw.methods["_makeFeatures"]
+    un = [s for s in A.stmts_of(mf.node) if isinstance(s, ast.Assign) and isinstance(s.value, ast.Call) and A.callee_name(s.value) == "_getAbvmGlyphs"]
+    need(len(un) == 1 and isinstance(un[0].targets[0], ast.Tuple), f"cannot interpret {mf.short}")
+    an, nn = [e.id for e in un[0].targets[0].elts]
+    preds = {}
+    for d in [n for n in ast.walk(mf.node) if isinstance(n, ast.FunctionDef) and n is not mf.node]:
+        r = [x for x in ast.walk(d) if isinstance(x, ast.Return)]
+        if len(r) == 1 and isinstance(r[0].value, ast.Compare) and isinstance(r[0].value.ops[0], ast.In) and T(r[0].value.left) == d.args.args[0].arg:
+            preds[d.name] = T(r[0].value.comparators[0])
+    want = {"_makeMarkFeature": nn, "_makeMkmkFeature": nn, "_makeAbvmOrBlwmFeature": an}
+    for callee, setname in want.items():
+        cs = [c for c in calls_named(mf, callee)]
+        ok = bool(cs) and all(isinstance(A.kwarg(c, "include"), ast.Name) and preds.get(A.kwarg(c, "include").id) == setname for c in cs)
+        chk.ob("R06.10", f"{mf.short}|{callee}(include = membership in the {'not-' if setname == nn else ''}abvm set)", ok, where(mf, cs[0]) if cs else where(mf), detail=f"include tests membership in {setname}",
+               message=f"{mf.short}: {callee} is not restricted to the {'non-' if setname == nn else ''}abvm glyphs (bases attached twice, or not at all)")
+    chk.minimum("R06.10", 5)
+
+
 MUTANTS = [
+    M("glyphs of undeclared abvm scripts fall between the two sets (seeded C06a)", "ufo2ft/featureWriters/markFeatureWriter.py", "MarkFeatureWriter._getAbvmGlyphs",
+      "notAbvmGlyphs |= glyphSet - abvmGlyphs", "notAbvmGlyphs |= glyphSet - set().union(*glyphGroups.values())", rule="R06.10"),
+    M("mark feature built for abvm glyphs", "ufo2ft/featureWriters/markFeatureWriter.py", "MarkFeatureWriter._makeFeatures",
+      "self._makeMarkFeature(include=isNotAbvm)", "self._makeMarkFeature(include=isAbvm)", rule="R06.10"),
     M("anchors at x == 0 fall back to the default master", "ufo2ft/featureWriters/baseFeatureWriter.py", "BaseFeatureWriter._getAnchor",
       "x = anchor.x", "x = anchor.x or 0.0", rule="R06.9"),
     M("mark anchors on the baseline skipped", "ufo2ft/featureWriters/markFeatureWriter.py", "MarkFeatureWriter._makeMarkClassDefinitions",
